@@ -130,7 +130,8 @@ class _Service(httpx.AsyncBaseTransport):
         if head:
             chunks = []
         else:
-            chunks = [body[i:i + self.piece] for i in range(0, len(body), self.piece)]
+            piece = max(self.piece, len(body) // 24)
+            chunks = [body[i:i + piece] for i in range(0, len(body), piece)]
         return httpx.Response(status, headers=headers, stream=_Body(self, chunks, fail_after))
 
     async def handle_async_request(self, request):
@@ -297,6 +298,9 @@ class FakeB2(_Service):
         self.versions = {}              # name -> list of ('upload', bytes) | ('hide',)
         self.account_id = 'acct-' + key_id
         self.auth_count = 0
+        self.expire_after = None        # all authorisation tokens expire once, after this many API requests
+        self.authorize_latency = 0.0
+        self._api_requests = 0
 
     @property
     def objects(self):
@@ -426,6 +430,14 @@ class FakeB2(_Service):
     async def handle_async_request(self, request):
         # a failed upload invalidates its upload URL (documented: request a new one)
         resp = None
+        op = self.classify(request)
+        if op == 'authorize' and self.authorize_latency:
+            await asyncio.sleep(self.authorize_latency)
+        elif op != 'authorize':
+            self._api_requests += 1
+            if self.expire_after is not None and self._api_requests == self.expire_after:
+                self.expire_tokens()
+                self.count('tokens-expired')
         try:
             resp = await super().handle_async_request(request)
             return resp
